@@ -57,8 +57,8 @@ impl ExtCase {
 
 pub fn ext_cases(thorough: bool) -> Vec<ExtCase> {
     let mut v = vec![];
-    let sizes: Vec<usize> = if thorough { vec![0, 1, 2, 3, 8, 33, 200, 2047, 2048, 2049] } else { vec![0, 1, 2, 3, 8, 33, 2049] };
-    for profile in if thorough { vec!["plain", "unique", "floatkey", "strkey", "nullbool", "exotic"] } else { vec!["plain", "unique", "floatkey", "exotic"] } {
+    let sizes: Vec<usize> = if thorough { vec![0, 1, 2, 3, 8, 33, 200, 2047, 2048, 2049] } else { vec![0, 1, 2, 3, 8, 33] };
+    for profile in if thorough { vec!["plain", "unique", "floatkey", "strkey", "nullbool", "exotic"] } else { vec!["plain", "unique", "exotic"] } {
         for &n in &sizes {
             for keys in ["sort1", "sort2"] {
                 let mut lens = vec![0usize, 1, 2, 3, 7, n / 2 + 1, n.max(1)];
@@ -167,8 +167,8 @@ impl PartCase {
 }
 pub fn part_cases(thorough: bool) -> Vec<PartCase> {
     let mut v = vec![];
-    let sizes: Vec<usize> = if thorough { vec![0, 1, 2, 3, 12, 40, 300, 2049] } else { vec![0, 1, 2, 3, 12, 40] };
-    for profile in tables::PROFILES {
+    let sizes: Vec<usize> = if thorough { vec![0, 1, 2, 3, 12, 40, 300, 2049] } else { vec![0, 1, 2, 12, 30] };
+    for profile in if thorough { tables::PROFILES.to_vec() } else { vec!["plain", "nullbool", "exotic"] } {
         for &n in &sizes {
             for partitions in [1usize, 2, 256] {
                 for policy in ["never", "largest", "lru", "own", "largest3"] {
